@@ -1,6 +1,7 @@
 package peering
 
 import (
+	"errors"
 	"fmt"
 	"maps"
 	"net/netip"
@@ -152,6 +153,15 @@ func (p *Peering) AddLink(link Link) error {
 	p.linksLock.Lock()
 	defer p.linksLock.Unlock()
 
+	// Refuse a second link to the same peer or with the same label, e.g. when
+	// both routers connect to each other at the same time.
+	if existing, ok := p.links[link.Peer()]; ok && existing != link {
+		return errors.New("already connected to this router")
+	}
+	if existing, ok := p.linksByLabel[link.SwitchLabel()]; ok && existing != link {
+		return errors.New("switch label already in use")
+	}
+
 	_, err := p.instance.RoutingTable().AddRoute(m.RoutingTableEntry{
 		DstIP:   link.Peer(),
 		NextHop: link.Peer(),
@@ -172,9 +182,15 @@ func (p *Peering) RemoveLink(link Link) {
 	p.linksLock.Lock()
 	defer p.linksLock.Unlock()
 
-	delete(p.links, link.Peer())
-	delete(p.linksByLabel, link.SwitchLabel())
-	p.instance.RoutingTable().RemoveNextHop(link.Peer())
+	// Only remove entries of this link: another link to the same peer may have
+	// been registered instead of this one.
+	if p.links[link.Peer()] == link {
+		delete(p.links, link.Peer())
+		p.instance.RoutingTable().RemoveNextHop(link.Peer())
+	}
+	if p.linksByLabel[link.SwitchLabel()] == link {
+		delete(p.linksByLabel, link.SwitchLabel())
+	}
 
 	// If we reach zero links, trigger peering.
 	if len(p.links) == 0 && !p.mgr.IsDone() {
